@@ -5,7 +5,7 @@ open Cppcheck.Wire Cppcheck.Configs
 /-
 Line protocol (one op per line):
   gc <fe><fn> <ud> <undefs> <defined> <dir>*      getConfigs on a directive list
-        fe/fn  = 0|1  (Flags.fixElse / Flags.fixNotDef; 00 = the code)
+        fe/fn  = 0|1  (Flags.fixElse / Flags.fixNotDef; 10 = Flags.code, the code since 4aed040; 00 = the fold before it)
         ud     = hex of Settings::userDefines
         undefs, defined = comma separated hex names, "-" = none
         dir    = d<hex> (#ifdef) | n<hex> (#ifndef) | D<hex> (#if defined(..)) | N<hex> (#if !defined(..))
@@ -13,6 +13,7 @@ Line protocol (one op per line):
      -> "C <cfg>,<cfg>,... | L <r.r.r>/<r.r>/..."    configurations in set order; per configuration the
         regions that are live in it ("-" = none); "L ?" when the list is not a well nested tree
   reach <ud> <undefs> <dir>*                      regions some configuration consistent with -D / -U contains -> "R r.r.r"
+  flags                                           the variant `Flags.code` of the theorems -> "F <fe><fn>"
   safe <fe><fn> <dir>*                            the decidable class of Model/Configs.lean   -> "S 0|1|?"
   sel <force> <maxopt> <maxproj> <ud> <cfg>,<cfg>,...   selection loop of checkInternal
      -> "M <maxConfigs> | A <currentConfig>,..."
@@ -66,6 +67,9 @@ def step (line : String) : String :=
         s!"R {natsStr ((t.reach pos undefs).foldr insertNat [])}"
       | none => "R ?"
     | _, _, _ => "bad-op"
+  | ["flags"] =>
+    -- the variant the "code" theorems (`getConfigs = getConfigsWith Flags.code`) are about
+    s!"F {boolStr Flags.code.fixElse}{boolStr Flags.code.fixNotDef}"
   | "safe" :: fl :: dirs =>
     match dirs.mapM parseDir with
     | some ds =>
